@@ -891,3 +891,6 @@ func sortedMap(m map[string]int64) []string {
 	sort.Strings(out)
 	return out
 }
+
+// ElectedAt returns the height of the last election the monitor saw on the reference replica.
+func (m *ElectionMonitor) ElectedAt() int64 { return m.electedAt }
